@@ -11,7 +11,7 @@ From Coq Require Import Reals ZArith List Lra Lia Bool.
 From Interval Require Import Xreal.
 From Flocq Require Import Core.Core IEEE754.BinarySingleNaN.
 From RD Require Import Base.Expr Base.Run Model.Sampler Model.Continuous Model.Discrete Model.Multi
-  Proofs.LawsInvCdf Proofs.LoopBoundsFloat Proofs.LoopBounds.
+  Proofs.LawsInvCdf Proofs.LoopBoundsFloat Proofs.LoopBounds Proofs.ConsumptionDiscrete.
 Import ListNotations.
 
 (* ======== 1. Geometric::new on IEEE binary64: pi = pi*pi; while pi > 0.5 { k += 1; pi = pi*pi } ======== *)
@@ -187,6 +187,20 @@ Print Assumptions C05_fsq_decreases.
 Print Assumptions C05_geometric_new_terminates.
 Print Assumptions C05_geo_newB_unfold.
 Print Assumptions C05_geometric_new_small.
+(* ======== 4. BTPE and H2PE: exactly two words per proposal, for every word list and ALL parameters =========== *)
+Theorem C05_two_per_iter_def : forall fuel ws q,
+  two_per_iter fuel ws q <-> exists j : nat, (1 <= j <= fuel)%nat /\ length ws = (length (snd q) + 2 * j)%nat.
+Proof. intros. reflexivity. Qed.
+Theorem C05_btpe_loop_words : forall n pe fuel m p1 x_m x_l x_r c p2 lambda_l lambda_r p3 p4 ws,
+  allout (two_per_iter fuel ws) (fun _ => True) (btpe_loop n pe fuel m p1 x_m x_l x_r c p2 lambda_l lambda_r p3 p4 ws).
+Proof. exact btpe_loop_words. Qed.
+Theorem C05_h2pe_loop_words : forall n1 n2 k m a lambda_l lambda_r x_l x_r p1 p2 p3 fuel ws,
+  allout (two_per_iter fuel ws) (fun _ => True) (h2pe_loop n1 n2 k m a lambda_l lambda_r x_l x_r p1 p2 p3 fuel ws).
+Proof. exact h2pe_loop_words. Qed.
+
+Print Assumptions C05_two_per_iter_def.
+Print Assumptions C05_btpe_loop_words.
+Print Assumptions C05_h2pe_loop_words.
 Print Assumptions C05_exact_squarings_bound.
 Print Assumptions C05_allout_meaning.
 Print Assumptions C05_evals_fails_excl.
